@@ -214,6 +214,32 @@ def _fake_dihedral_angles(traj, dihedral_type):
     return np.array(ang, dtype=np.float64).copy(), inds
 
 
+class _StubTopology:
+    def atom(self, i):
+        import types
+        return types.SimpleNamespace(index=int(i))
+
+
+class _StubMd:
+    """stands for the mdtraj module inside enspara.geometry.rotamer: compute_phi(traj) -> (atom indices, radians)"""
+
+    def __getattr__(self, name):
+        if not name.startswith("compute_"):
+            raise AttributeError(name)
+        kind = name[len("compute_"):]
+
+        def compute(traj):
+            ang, ids = traj.t[kind]
+            deg = np.array(ang, dtype=np.float64)
+            rad = np.deg2rad(np.where(deg > 180, deg - 360, deg)).astype(np.float32)
+            rad[deg == 359.5] = np.float32(-1e-7)
+            inds = np.zeros((len(ids), 4), dtype=int)
+            inds[:, 0] = ids
+            inds[:, 2] = ids
+            return inds, rad
+        return compute
+
+
 def replay_group(g):
     """g: {"buf": half-degrees, "n": frames, "cases": {b: [walk, ...]}}: the walks of one buffer
     and length become the columns of the angle table handed to the library callers."""
@@ -241,8 +267,15 @@ def replay_group(g):
         table(3, chi[k * q:(k + 1) * q], "chi%d" % (k + 1))
     traj = _Table(cols)
     bad = []
-    saved = rotamer.dihedral_angles
-    rotamer.dihedral_angles = _fake_dihedral_angles
+    saved, saved_md = rotamer.dihedral_angles, rotamer.md
+    if g.get("real_conversion"):
+        # the library's own radians -> [0, 360) conversion runs: mdtraj's compute_<type> is replaced instead, and hands
+        # out what mdtraj does -- float32 radians in (-pi, pi]. 359.5 degrees (the angle next to the seam in the
+        # grid) is given as -1e-7 rad = 359.999994 degrees: same basin, no gate in between
+        rotamer.md = _StubMd()
+        traj.topology = _StubTopology()
+    else:
+        rotamer.dihedral_angles = _fake_dihedral_angles
     try:
         calls = []
         if all(by_b.get(b) for b in (1, 2, 3)) and g["buf"] * 3 < 720:
@@ -277,7 +310,10 @@ def replay_group(g):
             if ids != sorted(ids) or len(set(ids)) != len(ids):
                 bad.append(("rotamer/%s/atom-inds-order" % name, {"ids": ids[:50]}))
     finally:
-        rotamer.dihedral_angles = saved
+        rotamer.dihedral_angles, rotamer.md = saved, saved_md
+    if g.get("real_conversion"):
+        bad = [(k.replace("rotamer/", "rotamer/real-angle-conversion/", 1), dict(dd, angles="float32 radians from a "
+                "stand-in for mdtraj.compute_<type>; 359.5 degrees given as -1e-7 rad")) for k, dd in bad]
     return bad
 
 
@@ -523,12 +559,14 @@ def _handle(ctx, report, jobs, meta, results, st):
         for s in range(0, m, 400):
             part = {str(b): v[s:s + 400] for b, v in g.items() if v[s:s + 400]}
             glist.append({"buf": buf, "n": n, "cases": part})
+            glist.append({"buf": buf, "n": n, "cases": part, "real_conversion": True})
     res = core.pmap(replay_group, glist, chunk=4)
     for g, bad in zip(glist, res):
         st["ncols"] += sum(len(v) for v in g["cases"].values())
         ctx.evaluations += 1
         for key, detail in bad:
-            report({"kind": "group", "group": {"buf": g["buf"], "n": g["n"]}, "detail": detail,
+            report({"kind": "group", "group": {"buf": g["buf"], "n": g["n"], "real_conversion": bool(g.get("real_conversion"))},
+                    "detail": detail,
                     "how": "phi_/psi_/chi_/all_rotamers with dihedral_angles replaced by the emitted angle table"}, key)
 
     # ---------------- replay transitions
@@ -569,7 +607,8 @@ def replay(ctx, path):
         w = rec["detail"].get("case")
         if w is None:
             raise core.MachineryError("group record without a case cannot be replayed; re-run the check")
-        bad = replay_group({"buf": rec["group"]["buf"], "n": rec["group"]["n"], "cases": {str(w["b"]): [w]}})
+        bad = replay_group({"buf": rec["group"]["buf"], "n": rec["group"]["n"], "cases": {str(w["b"]): [w]},
+                            "real_conversion": rec["group"].get("real_conversion", False)})
     else:
         raise core.MachineryError("model-level violation: re-run ./check C20 (%s)" % rec.get("cmd", ""))
     ctx.case(("replay",), sample=rec.get("case"))
